@@ -204,9 +204,7 @@ fn timestamp(ctx: &LineCtx, refs: &[(String, u64)], microseconds: bool, default:
             }
         }
     }
-    if refs.len() > 7 {
-        return Cell::Any;
-    }
+    // (year, month, day, hour, minute, second, fraction: groups listed after the seventh take no part)
     if absent_part {
         // a listed part whose group did not take part: NULL / DEFAULT or the part's documented default are all acceptable
         return Cell::Any;
